@@ -665,16 +665,21 @@ def coq_case(case, obs):
                                                   vlib.coq_bool(bool(case["static"])), coq_logs(main))
 
 
-def evaluate(ctx, cases, tag):
+def evaluate(ctx, cases, tag, verbose=None):
+    """verbose: None = the fixed share of the batch runs under the formatting logger; True / False = the whole batch does / does not
+    (replay and shrinking keep the mode of the case they start from)"""
     binp = build_driver(ctx, cases, tag)
-    rc, res, raw = vlib.run_json(binp, {"cases": [go_case(c) for c in cases]}, timeout=3000)
+    rc, res, raw, loud = vlib.run_json_verbose_share(ctx, binp, {"cases": [go_case(c) for c in cases]}, timeout=3000,
+                                                     pick=None if verbose is None else (lambda i: verbose))
+    loud = set(loud)
     if res is None:
         raise vlib.GoBuildError("./cmd/c11 (run)", raw[-3000:])
     by_id = {}
     terms = []
-    for c, o in zip(cases, res["outs"]):
+    for pos, (c, o) in enumerate(zip(cases, res["outs"])):
         main = o.get("main") or {}
         by_id[c["id"]] = {"case": c, "go_struct": go_struct_text(c["shape"]), "config": config_text(c),
+                          "verbose": pos in loud,
                           "outcome": o["out"], "detail": o["detail"][-600:], "changed": [".".join(p) for p in changed_paths(main)],
                           "props": main.get("props"), "procs": o.get("procs"),
                           "loggers": main.get("logs"), "flat_loggers": (o.get("flat") or {}).get("logs"),
@@ -960,18 +965,20 @@ def run(ctx):
     static_ok = vlib.static_obligations(ctx)
     ns, nd = (120, 2000) if ctx.quick() else (400, 30000)
     cases = [renumber(c, i) for i, c in enumerate(load_corpus())]
+    mode = None
     if ctx.replay:
         r = json.load(open(ctx.replay))
         rc = r.get("case", {}).get("case")
         if rc:
             cases = [renumber(rc, 0)]
+            mode = bool(r["case"].get("verbose"))
     else:
         n0 = len(cases)
         for i in range(ns):
             cases.append(gen_case(ctx.rng, n0 + i, True))
         for i in range(nd):
             cases.append(gen_case(ctx.rng, n0 + ns + i, False))
-    by_id, res = evaluate(ctx, cases, "main")
+    by_id, res = evaluate(ctx, cases, "main", mode)
     M, V, nt = res["M"], res["V"], res["NT"]
     outcomes = {}
     for e in by_id.values():
@@ -986,7 +993,7 @@ def run(ctx):
             if not cands:
                 break
             cands = [renumber(c, i) for i, c in enumerate(cands)]
-            b2, r2 = evaluate(ctx, cands, "shrink")
+            b2, r2 = evaluate(ctx, cands, "shrink", bool(cur.get("verbose")))
             if not r2["V"]:
                 break
             best = min(r2["V"], key=lambda i: count_nodes(b2[i]["case"]["shape"]))
@@ -1026,6 +1033,7 @@ def run(ctx):
                 "with a recognised tag must stay untouched (unexported, or inside a struct that is not entered); distinct = "
                 "distinct shapes",
         "repeated_embedded_type_cases": sum(1 for c in cases if repeated_types(c)["tagged"]),
+        "cases_under_formatting_logger": sum(1 for e in by_id.values() if e.get("verbose")),
         "samples": samples,
         "traces_validated_against_impl": len(cases),
         "input_distribution": stats(cases),
